@@ -6,6 +6,7 @@ import (
 	"io"
 	"net/http"
 	"net/http/httptest"
+	"reflect"
 	"strings"
 	"time"
 
@@ -274,6 +275,10 @@ func c09Run(c c09Case, st *fw.Stats) []fw.Viol {
 		}
 	}
 	desc := fmt.Sprintf("%+v", c)
+	if c.Where == "two-panics" {
+		c09TwoPanics(c, st, add)
+		return vs
+	}
 	// global middleware of the chain also wraps every other request: the baseline is a fresh identical router
 	cr := newC09Router(c)
 	m, p := c.request()
@@ -434,7 +439,58 @@ func c09Run(c c09Case, st *fw.Stats) []fw.Viol {
 	return vs
 }
 
+// c09TwoPanics: two panics in ONE request. A handler re-dispatches with HandleContext; the handler reached that way
+// panics (contained by the inner dispatch, whose hook runs), then the forwarding handler panics too (contained by the outer
+// dispatch). Each panic is contained, and the hook runs once for each with that panic's value. Values: pairs over
+// comparable and uncomparable types (slices, maps), equal and different.
+func c09TwoPanics(c c09Case, st *fw.Stats, add func(sig, msg string)) {
+	vals := []any{"boom", c09Err, c09Val{1, 2}, []string{"a"}, []string{"b"}, map[string]int{"k": 1}, struct{ L []int }{[]int{1}}, 42}
+	for i, v1 := range vals {
+		for j, v2 := range vals {
+			for _, mounted := range []bool{false, true} {
+				st.Evals++
+				st.Nontrivial++
+				var saw []any
+				hook := func(ctx *rux.Context) { saw = append(saw, ctx.SafeGet(rux.CTXRecoverResult)) }
+				inner := rux.New()
+				inner.OnPanic = hook
+				inner.GET("/boom", func(*rux.Context) { panic(v1) })
+				entry := inner
+				fwd := func(ctx *rux.Context) {
+					ctx.Req.URL.Path = "/boom"
+					inner.HandleContext(ctx)
+					panic(v2)
+				}
+				if mounted {
+					entry = rux.New()
+					entry.OnPanic = hook
+					entry.NotFound(fwd)
+				} else {
+					inner.GET("/fwd", fwd)
+				}
+				d := fmt.Sprintf("GET /fwd: the handler re-dispatches (HandleContext, %s) to a route that panics with value #%d (%T), then panics itself with value #%d (%T); OnPanic hooks installed", map[bool]string{false: "same router", true: "from a front router's NotFound handler"}[mounted], i, v1, j, v2)
+				if pv := try(func() { entry.ServeHTTP(httptest.NewRecorder(), httptest.NewRequest("GET", "/fwd", nil)) }); pv != nil {
+					add("panic:escaped", fmt.Sprintf("%s: a panic escaped ServeHTTP: %v", d, pv))
+					continue
+				}
+				if len(saw) != 2 {
+					add("panic:hook-runs", fmt.Sprintf("%s: the hook ran %d times, expected once per panic", d, len(saw)))
+					continue
+				}
+				if !reflect.DeepEqual(saw[0], v1) || !reflect.DeepEqual(saw[1], v2) {
+					add("panic:hook-value", fmt.Sprintf("%s: the hooks saw %v and %v under CTXRecoverResult", d, saw[0], saw[1]))
+				}
+				// the router stays usable
+				if pv := try(func() { entry.ServeHTTP(httptest.NewRecorder(), httptest.NewRequest("GET", "/fwd", nil)) }); pv != nil || len(saw) != 4 {
+					add("panic:follow-up", fmt.Sprintf("%s: the same request again: panic %v, hook runs so far %d (expected 4)", d, pv, len(saw)))
+				}
+			}
+		}
+	}
+}
+
 func c09Gen(tier string, emit func(c09Case)) {
+	emit(c09Case{Where: "two-panics", Hook: "nothing"})
 	hooks := []string{"absent", "nothing", "status", "status-body", "body", "abort-status"}
 	values := []string{"string", "error", "struct", "abort-handler", "int"}
 	maxN := 3
@@ -543,7 +599,7 @@ func c09Gen(tier string, emit func(c09Case)) {
 var c09Spec = fw.Spec[c09Case]{
 	ID:    "C09",
 	Level: "model_checking",
-	Rule: "complete product: chain shapes n<=3 (thorough 5) x every global/group/route split x every panic position x {before Next, after Next, without Next} x panic value {string, error, struct, http.ErrAbortHandler, int} x hook {absent, does nothing, status only, status+body, body only, AbortWithStatus(503, message), status + re-dispatch to an error-page route, a JSON document through the JSON helper (the last two also after the handler recorded an error)} x {PanicsHandler middleware} x {a byte committed before the panic} (+ the panic request issued twice) (+ the router mounted behind a front router that passes its context on with HandleContext) (+ under the Timeout middleware with a deadline that is far away / has already passed) (+ on a caller's writer without Flush) (+ the panicking handler calls Abort first) (+ route caching switched on by calling the option function after the routes exist) (+ handlers.ConsoleLogger first in the chain with the request's path on its skip list) (+ the panic raised by the caller's ResponseWriter when the handler commits status 99) (+ the panic raised by a value's MarshalJSON inside the JSONP helper) (+ the panic raised by WriteString on a caller's writer that refuses every byte), plus panics inside global middleware around the built-in 404 / 405 responders and inside NotFound / NotAllowed / OnError handlers (NotFound / NotAllowed also on a router without any global middleware); each followed by every one of 15 follow-up request kinds compared with a fresh identical router; " +
+	Rule: "complete product: chain shapes n<=3 (thorough 5) x every global/group/route split x every panic position x {before Next, after Next, without Next} x panic value {string, error, struct, http.ErrAbortHandler, int} x hook {absent, does nothing, status only, status+body, body only, AbortWithStatus(503, message), status + re-dispatch to an error-page route, a JSON document through the JSON helper (the last two also after the handler recorded an error)} x {PanicsHandler middleware} x {a byte committed before the panic} (+ the panic request issued twice) (+ the router mounted behind a front router that passes its context on with HandleContext) (+ under the Timeout middleware with a deadline that is far away / has already passed) (+ on a caller's writer without Flush) (+ the panicking handler calls Abort first) (+ route caching switched on by calling the option function after the routes exist) (+ handlers.ConsoleLogger first in the chain with the request's path on its skip list) (+ the panic raised by the caller's ResponseWriter when the handler commits status 99) (+ the panic raised by a value's MarshalJSON inside the JSONP helper) (+ the panic raised by WriteString on a caller's writer that refuses every byte), plus two panics in one request (a handler re-dispatches with HandleContext to a panicking route and then panics itself; 8 x 8 values incl. slices, maps and structs holding slices; same router / from a front router's NotFound handler), plus panics inside global middleware around the built-in 404 / 405 responders and inside NotFound / NotAllowed / OnError handlers (NotFound / NotAllowed also on a router without any global middleware); each followed by every one of 15 follow-up request kinds compared with a fresh identical router; " +
 		"every case is non-trivial (a panic is raised in each)",
 	Assume: []string{"for the in-chain PanicsHandler only 'the panic does not escape' and 'follow-ups are unaffected' are asserted (the statement promises nothing else for it)", "when the hook sets no status, any single committed status is accepted"},
 	Bounds: func(tier string) map[string]any {
